@@ -481,9 +481,10 @@ class CapStep(Ob):
     functions = ["InstanceCapMode.is_relevant_triple/_check_class_counts/annotate_triple/_annotate_class_with_stop_condition/_annotate_class_with_no_stop_condition",
                  "InstancesCapException", "BaseAnnotator._get_proper_strategy"]
 
-    def __init__(self, mode, subject, other_pred=False):
-        self.mode, self.subject, self.other_pred = mode, subject, other_pred
-        self.name = "cap/%s/subject=%s%s" % (mode, subject, "/other-pred" if other_pred else "")
+    def __init__(self, mode, subject, other_pred=False, inst=None):
+        # inst: a non-default instantiation property; with it rdf:type is an ordinary property (other_pred then uses rdf:type as the predicate)
+        self.mode, self.subject, self.other_pred, self.inst = mode, subject, other_pred, inst
+        self.name = "cap/%s/subject=%s%s%s" % (mode, subject, "/other-pred" if other_pred else "", "/inst=" + inst.rsplit("/", 1)[-1] if inst else "")
 
     def build(self, ex):
         cap = sym_counter(ex, "cap", 1, 6)
@@ -497,7 +498,8 @@ class CapStep(Ob):
             ex.add(cD.e >= 1)
         elif self.subject == "known-same-class":
             pass
-        pred = RDF_TYPE if not self.other_pred else P
+        inst = self.inst or RDF_TYPE
+        pred = inst if not self.other_pred else (RDF_TYPE if self.inst else P)
         return dict(cap=cap, counts={"http://ex.org/C": cC, "http://ex.org/D": cD}, pre_inst=pre_inst, s=s,
                     triple=(("iri", s), pred, ("iri", "http://ex.org/C")))
 
@@ -505,7 +507,7 @@ class CapStep(Ob):
         from shexer.core.instances.annotators.strategy_mode.instances_cap_exception import InstancesCapException
         cap, counts = a["cap"], a["counts"]
         targets = ["http://ex.org/C", "http://ex.org/D"] if self.mode == "targets" else None
-        tr = make_tracker(targets, self.mode == "all", RDF_TYPE, 1)          # cap > 0 selects InstanceCapMode; the real limit is injected below
+        tr = make_tracker(targets, self.mode == "all", self.inst or RDF_TYPE, 1)          # cap > 0 selects InstanceCapMode; the real limit is injected below
         mode = tr._annotator._strategy_mode
         mode._instance_limit = cap
         mode._class_counts.update(counts)
@@ -1029,6 +1031,8 @@ def obligations(prop, tier):
         for mode in ("targets", "all"):
             for subject in ("new", "known-other-class"):
                 out.append(CapStep(mode, subject))
+                out.append(CapStep(mode, subject, inst="http://ex.org/isa"))
+            out.append(CapStep(mode, "new", other_pred=True, inst="http://www.wikidata.org/prop/direct/P31"))
             out.append(CapStep(mode, "new", other_pred=True))
     if prop == "C17":
         for inverse in (False, True):
